@@ -1,5 +1,5 @@
 (* Decoding / encoding shared by Run/C04.v and Run/C11.v (no dependency on the generated parameter files). *)
-From EN Require Import Lib.Bytes Lib.Sx IO.Retry IO.SendAll IO.SendMsg IO.Budget IO.ClientLocks.
+From EN Require Import Lib.Bytes Lib.Sx IO.Retry IO.SendAll IO.SendMsg IO.Budget IO.SslMap IO.ClientLocks.
 Open Scope Z_scope.
 
 Definition as_tmo (x : sx) : option tmo := as_opt as_Z x.
@@ -12,16 +12,22 @@ Definition as_selans (x : sx) : option selans :=
   | _ => None
   end.
 
-Definition as_sockans (x : sx) : option sockans :=
+(* one scripted answer of the socket / SSL object: kind 0 done (n bytes) | 1,2 BlockingIOError, InterruptedError,
+   SSLWantWrite | 3 SSLWantRead | 4 SSLSyscallError | 5 ConnectionResetError, SSLZeroReturn; the mapping to
+   WouldBlockOnWrite / WouldBlockOnRead / ECONNRESET is IO/SslMap.v (_try_ssl_method) *)
+Definition as_sslans (x : sx) : option sslans :=
   match x with
   | L [A k; A n; A c] =>
-      if k =? 0 then (if n <? 0 then None else Some (SSent (Z.to_nat n) c))
-      else if (k =? 1) || (k =? 2) then Some (SBlock true c)
-      else if (k =? 3) || (k =? 4) then Some (SBlock false c)
-      else if k =? 5 then Some (SErr c)
+      if k =? 0 then (if n <? 0 then None else Some (SslDone (Z.to_nat n) c))
+      else if (k =? 1) || (k =? 2) then Some (SslWantWrite c)
+      else if k =? 3 then Some (SslWantRead c)
+      else if k =? 4 then Some (SslSyscall c)
+      else if k =? 5 then Some (SslZeroReturn c)
       else None
   | _ => None
   end.
+
+Definition as_sockans (x : sx) : option sockans := option_map ssl_send_answer (as_sslans x).
 
 (* Some None = no lock layer *)
 Definition as_lock (x : sx) : option (option lockans) :=
